@@ -742,3 +742,9 @@ mod tests {
         assert_eq!(batches[0].num_rows(), 1);
     }
 }
+
+// Verification hook (inactive unless compiled by the Kani verifier): pulls the
+// proof harnesses for this module in from the directory named by
+// DATAFUSION_VERIF_DIR so that they can reach private items.
+#[cfg(kani)]
+include!(concat!(env!("DATAFUSION_VERIF_DIR"), "/kani/physical_plan/sorts_merge.rs"));
